@@ -4,7 +4,7 @@ closed after every upload, and the result is truthful (C04 / C11).
 Bound: 2-3 directories (<= 3 files, one shared), 1-2 failing objects, error kinds {EIO at put_file, FileNotFoundError because the
 source object vanished after the status query, corrupt source object under verify=True}, with/without a destination index; n transfers (seeded)."""
 import logging; logging.disable(logging.CRITICAL)
-import json, os, random, sys, tempfile
+import hashlib, json, os, random, sys, tempfile
 from contextlib import closing
 SRC = os.environ.get("PYVC_REPO_SRC", "/repo/src")
 sys.path.insert(0, SRC)
@@ -84,15 +84,16 @@ def main(n, seed):
             continue
         with tempfile.TemporaryDirectory(dir="/var/tmp") as tmp:
             fs = LocalFileSystem()
-            cache = HashFileDB(fs, os.path.join(tmp, "cache"))
-            remote = HashFileDB(FFS(), os.path.join(tmp, "remote"))
+            alg = "md5-dos2unix" if case % 4 == 3 else "md5"  # every fourth: a legacy pair of stores (ids carry the legacy name)
+            cache = HashFileDB(fs, os.path.join(tmp, "cache"), hash_name=alg)
+            remote = HashFileDB(FFS(), os.path.join(tmp, "remote"), hash_name=alg)
             trees = []
             for d in range(rnd.randint(2, 3)):
                 p = os.path.join(tmp, "ws", f"d{d}"); os.makedirs(p)
                 open(os.path.join(p, "shared"), "wb").write(b"SHARED")
                 for f in range(rnd.randint(1, 2)):
                     open(os.path.join(p, f"f{f}"), "wb").write(f"{case}-{d}-{f}".encode())
-                staging, _, obj = build(cache, p, fs, "md5")
+                staging, _, obj = build(cache, p, fs, alg)
                 transfer(staging, cache, {obj.hash_info}, shallow=False)
                 trees.append(obj)
             ids = {t.hash_info for t in trees} | {hi for t in trees for _, _, hi in t}
@@ -101,7 +102,9 @@ def main(n, seed):
             victims = set(rnd.sample(files, rnd.randint(1, 2)))
             state.update(fail=victims if kind == "eio" else set(), remote=remote, trees=trees, unclosed=None)
 
-            def hook(status, victims=victims, kind=kind):
+            appeared = kind == "corrupt" and rnd.random() < 0.5
+
+            def hook(status, victims=victims, kind=kind, appeared=appeared):
                 if kind == "vanish":
                     for o in victims:
                         pth = cache.oid_to_path(o)
@@ -111,9 +114,15 @@ def main(n, seed):
                     for o in victims:
                         pth = cache.oid_to_path(o)
                         if os.path.exists(pth):
+                            if appeared:
+                                # ... and meanwhile someone else delivered the intact object (after the status query): the
+                                # verifying destination must not end up holding the rotten bytes under that name
+                                dst = remote.oid_to_path(o)
+                                os.makedirs(os.path.dirname(dst), exist_ok=True)
+                                open(dst, "wb").write(open(pth, "rb").read())
                             os.chmod(pth, 0o644); open(pth, "wb").write(b"rotten " + o.encode())
             use_index = rnd.random() < 0.5
-            distinct.add((len(trees), kind, tuple(sorted(victims)), use_index))
+            distinct.add((len(trees), kind, tuple(sorted(victims)), use_index, alg))
             problem = None
             try:
                 if use_index:
@@ -126,6 +135,8 @@ def main(n, seed):
                     problem = f"after an upload the destination held directory {state['unclosed'][0][:8]} without its file {state['unclosed'][1][:8]}"
                 elif unclosed(remote, trees):
                     problem = "destination not closed at return"
+                elif kind == "corrupt" and (bad := [o for o in present if not o.endswith(".dir") and hashlib.md5(open(remote.oid_to_path(o), "rb").read()).hexdigest() != o]):
+                    problem = f"after a transfer with verify the destination retains a mismatching object {bad[0][:8]}" + (" (the intact object had been delivered meanwhile)" if appeared else "")
                 elif any(h.value not in present for h in res.transferred):
                     problem = "an object reported as transferred is absent from the destination"
                 elif any(h.value not in present and h not in res.failed for h in ids):
@@ -136,9 +147,9 @@ def main(n, seed):
                 problem = "raised " + repr(e)
             state["remote"] = None
             if problem:
-                fails.append({"fault": kind, "victims": sorted(victims), "dest_index": use_index, "problem": problem})
+                fails.append({"fault": kind, "victims": sorted(victims), "dest_index": use_index, "algorithm": alg, "problem": problem})
     return {"evaluations": n, "distinct_nontrivial": len(distinct), "failures": fails[:3], "n_failures": len(fails),
-            "bound": "2-3 directories sharing a file, 1-2 failing uploads, fault kinds {EIO, source vanished, source corrupt under verify}, with/without index; every tenth: a fault-free transfer whose source objects live on two filesystems"}
+            "bound": "2-3 directories sharing a file, 1-2 failing uploads, fault kinds {EIO, source vanished, source corrupt under verify (half of them: the intact object delivered by someone else after the status query)}, with/without index, every fourth on a legacy (md5-dos2unix) pair of stores; every tenth: a fault-free transfer whose source objects live on two filesystems"}
 
 
 if __name__ == "__main__":
